@@ -529,6 +529,7 @@ func (t *objectType) InitFromHash(c px.Context, initHash px.OrderedMap) {
 		equality = []string{string(es)}
 	} else if ea, ok := eq.(*Array); ok {
 		equality = make([]string, ea.Len())
+		ea.EachWithIndex(func(elem px.Value, i int) { equality[i] = elem.String() })
 	} else {
 		equality = nil
 	}
